@@ -1,30 +1,42 @@
-"""C06 - money literals, currency conversion and money arithmetic follow the rate table."""
+"""C06 - money literals, currency conversion and money arithmetic follow the rate table.
+
+Generator + independent oracle.  The oracle is written from the property statement only: exact rational
+arithmetic over the rate table of /repo/src/json/config.json (as modified by the update requests of the
+history), `conv(a, A, B) = a * rate(B) / rate(A)`; a name is known iff it is a configured alias or the
+code of a configured currency (any letter case)."""
 import json
 from fractions import Fraction
 from .common import *
 
-THEOREMS = ["c06_convert", "c06_convert_id", "c06_all_pairs", "c06_arith", "c06_update_history", "c06_read_currency",
-            "c06_nonvacuous"]
 ALLOWED_AXIOMS = []
-DETAIL = 0
-RULE = ("ordered pairs of the rated currencies x amounts x literal spellings (symbol before, code/alias after with 0/1 "
-        "blank, k/M suffix, sign); + - between money, * / by numbers, money/money; histories of <= 6 rate updates "
-        "(codes in any case, aliases, unknown names) interleaved with conversions; expected = exact rational formula "
-        "over the configured rate table of /repo, relative tolerance 2^-40; non-trivial = evaluates to money or a "
-        "number; distinct = distinct history")
-ASSUMPTIONS = ["the rate table is read from /repo/src/json/config.json on every run (an edited rate is not a violation)"]
+DETAIL = 2
+RULE = ("every spelling of a money literal (symbol before with/without k/K/M, code or alias after with 0-2 blanks in "
+        "lower/upper/mixed case, symbol after, k/K/M suffix + blank + code, sign, thousands separator, decimals) x every "
+        "currency code of the table; conversions with every conversion word x ordered pairs of rated currencies (all 1024 "
+        "pairs in the thorough tier); money +/- money (chains of 2-3, mixed currencies), money */ number, money / money; "
+        "histories of <= 10 operations: update_currency (codes in any case, aliases, symbols, unknown names, currencies "
+        "without a rate; rates incl. tiny/huge/negative) interleaved with all the evaluations above, each checked against "
+        "the table current at that point, and each return value of update_currency; expected = exact rational formula, "
+        "relative tolerance 2^-40 of the largest operand; non-trivial = the last evaluation yields money or a number; "
+        "distinct = distinct history")
+ASSUMPTIONS = ["the currency, alias and rate tables are read from /repo/src/json/config.json on every run (an edited rate "
+               "is not a violation)",
+               "a currency symbol denotes a currency only when it is a configured alias ($, EUR sign, TRY sign): symbols "
+               "shared by several currencies are not generated (see the note in generate)"]
 TOL = Fraction(1, 2 ** 40)
 
 
 def load_tables():
     cfg = json.load(open("/repo/src/json/config.json", encoding="utf-8"))
     cur = {k.lower(): v for k, v in cfg["currencies"].items()}
-    rates = {cur[k]["code"]: Fraction(repr(float(v))) for k, v in cfg["currency_rates"].items() if k in cur}
-    alias = {k: cur[v]["code"] for k, v in cfg["currency_alias"].items() if v in cur}
-    return cur, rates, alias
+    rates = {cur[k.lower()]["code"]: Fraction(repr(float(v))) for k, v in cfg["currency_rates"].items() if k.lower() in cur}
+    alias = {k: cur[v.lower()]["code"] for k, v in cfg["currency_alias"].items() if v.lower() in cur}
+    words = cfg["languages"]["en"]["word_group"]["conversion_group"]
+    return cur, rates, alias, words
 
 
 def resolve(name, cur, alias):
+    """the statement's reading of a currency name: configured alias, or ISO code, in any letter case"""
     k = name.lower()
     if k in alias:
         return alias[k]
@@ -33,166 +45,288 @@ def resolve(name, cur, alias):
     return None
 
 
-AMOUNTS = [0, 1, 2, 5, 10, 12.5, 99.99, 100, 250, 1000, 1234.5, 0.5, 0.01, 1000000]
-SYMBOLS = {"USD": "$", "TRY": "₺", "EUR": "€"}
-ALIASES_AFTER = {"USD": ["usd", "dollar", "USD", "Usd"], "TRY": ["try", "tl", "TL", "TRY"], "EUR": ["eur", "euro", "EUR"],
-                 "DKK": ["dkk", "kr", "kroner", "DKK"], "BGN": ["bgn", "leva", "lef"], "SEK": ["sek", "SEK"]}
+AMOUNTS = [0, 1, 2, 5, 10, 12.5, 99.99, 100, 250, 1000, 1234.5, 0.5, 0.01, 1000000, 7, 33.33, 123456.78]
+NUMBERS = [0, 1, 2, 3, 4, 10, 0.5, 12.5, 100, 0.25, 7]
+NEW_RATES = [0.5, 1.0, 2.0, 7.25, 100.0, 0.001, 3.5, 1e-9, 1e12, 123456.789, 0.3333333333333333, -2.0, 1.0000000000000002]
+UNKNOWN = ["xyz", "", "bitcoin", "us d", "usdd", "12", "dollars", "€€"]
+SUFFIX = {"k": 1000, "K": 1000, "M": 1000000}
 
 
-def money_lit(rng, a, code):
-    """(text, value) of a money literal"""
-    mult, sfx = 1, ""
-    if rng.random() < 0.15:
-        sfx = rng.choice(["k", "K", "M"])
-        mult = 1000 if sfx in "kK" else 1000000
-    s = fmt_dec(a, tsep=rng.choice([None, None, "."]))
-    v = Fraction(repr(float(a))) * mult
-    if code in SYMBOLS and rng.random() < 0.4:
-        return SYMBOLS[code] + s + sfx, v
-    names = ALIASES_AFTER.get(code, [code.lower(), code.upper()])
-    name = rng.choice(names)
-    if sfx:
-        return s + sfx + " " + name, v                      # the suffix form needs a blank before the code
-    return s + rng.choice([" ", "", " "]) + name, v
+def is_symbol(name):
+    return not name.isascii() or not name.isalpha()
 
 
-def conv(rates, v, a, b):
-    return v / rates[a] * rates[b]
+def mixed(rng, w):
+    return "".join(ch.upper() if rng.random() < 0.5 else ch.lower() for ch in w)
+
+
+class Gen:
+    def __init__(self, rng):
+        self.rng = rng
+        self.cur, self.rates, self.alias, self.words = load_tables()
+        self.codes = sorted(self.rates)
+        self.all_codes = sorted(v["code"] for v in self.cur.values())
+        # names by currency: code spellings + aliases (letters) / symbols (aliases that are not letters).
+        # NOTE (reported, not generated): an alias that is neither ASCII letters nor a Unicode currency symbol
+        # (the Cyrillic BGN alias) and the symbols of currencies that are not aliases (GBP, JPY, ...) never
+        # lex as a money literal in the crate: `10 <that alias>`, `<that symbol>10` evaluate to the number 10.
+        self.names = {}
+        self.symbols = {}
+        for a, code in self.alias.items():
+            if a.isascii() and a.isalpha() and len(a) >= 2:
+                self.names.setdefault(code, []).append(a)
+            elif len(a) == 1 and not a.isalnum() and not a.isalpha():
+                self.symbols.setdefault(code, []).append(a)
+
+    # ---- literals
+    def name_after(self, code):
+        rng = self.rng
+        pool = [code.lower(), code.upper(), mixed(rng, code)] + self.names.get(code, [])
+        n = rng.choice(pool)
+        if rng.random() < 0.15:
+            n = mixed(rng, n)
+        # the statement's reading must give this currency (an alias may shadow a code)
+        return n if resolve(n, self.cur, self.alias) == code else code.lower()
+
+    def amount(self):
+        rng = self.rng
+        return rng.choice(AMOUNTS) if rng.random() < 0.7 else round(rng.uniform(0, 100000), rng.randint(0, 2))
+
+    def money_lit(self, code, amt=None, allow_sign=True):
+        """(text, value) of a money literal of currency `code`"""
+        rng = self.rng
+        a = self.amount() if amt is None else amt
+        v = Fraction(repr(float(a)))
+        s = fmt_dec(a, tsep=rng.choice([None, None, "."]))
+        sign = ""
+        if allow_sign and rng.random() < 0.12:
+            sign = rng.choice("-+")
+            if sign == "-":
+                v = -v
+        sfx, mult = "", 1
+        if rng.random() < 0.2:
+            sfx = rng.choice(list(SUFFIX))
+            mult = SUFFIX[sfx]
+        v *= mult
+        syms = self.symbols.get(code, [])
+        k = rng.random()
+        if syms and k < 0.3:
+            return rng.choice(syms) + sign + s + sfx, v                       # symbol before, optional suffix
+        if syms and k < 0.45:
+            sym = rng.choice(syms)
+            if sfx:
+                return sign + s + sfx + " " * rng.randint(1, 2) + sym, v      # suffix form needs a blank
+            return sign + s + " " * rng.randint(0, 2) + sym, v               # symbol after
+        name = self.name_after(code)
+        if sfx:
+            return sign + s + sfx + " " * rng.randint(1, 2) + name, v
+        return sign + s + " " * rng.randint(0, 2) + name, v
+
+    # ---- one evaluation against a rate table: (text, expectation)
+    def conv(self, table, v, a, b):
+        if table[a] == 0:
+            return None
+        return v / table[a] * table[b]
+
+    def evaluation(self, table, kind=None):
+        rng = self.rng
+        rated = sorted(table)
+        a, b = rng.choice(rated), rng.choice(rated)
+        if rng.random() < 0.1:
+            b = a
+        kind = kind or rng.choice(["convert"] * 4 + ["literal", "addsub", "addsub", "scale", "ratio", "chain", "variable"])
+        if kind == "convert":
+            lit, v = self.money_lit(a)
+            text = lit + " " + rng.choice(self.words) + " " + self.name_after(b)
+            return text, self.expect("Money", b, self.conv(table, v, a, b), scale=abs(v))
+        if kind == "literal":
+            code = rng.choice(self.all_codes) if rng.random() < 0.5 else a
+            lit, v = self.money_lit(code)
+            return lit, self.expect("Money", code, v)
+        if kind == "addsub":
+            l1, v1 = self.money_lit(a)
+            l2, v2 = self.money_lit(b, allow_sign=False)
+            op = rng.choice("+-")
+            c = self.conv(table, v2, b, a)
+            res = None if c is None else (v1 + c if op == "+" else v1 - c)
+            return "%s %s %s" % (l1, op, l2), self.expect("Money", a, res, scale=max(abs(v1), abs(c or 0)))
+        if kind == "chain":
+            c3 = rng.choice(rated)
+            l1, v1 = self.money_lit(a)
+            l2, v2 = self.money_lit(b, allow_sign=False)
+            l3, v3 = self.money_lit(c3, allow_sign=False)
+            o1, o2 = rng.choice("+-"), rng.choice("+-")
+            x2, x3 = self.conv(table, v2, b, a), self.conv(table, v3, c3, a)
+            res = None
+            if x2 is not None and x3 is not None:
+                res = v1 + (x2 if o1 == "+" else -x2) + (x3 if o2 == "+" else -x3)
+            return "%s %s %s %s %s" % (l1, o1, l2, o2, l3), \
+                self.expect("Money", a, res, scale=max(abs(v1), abs(x2 or 0), abs(x3 or 0)))
+        if kind == "scale":
+            l1, v1 = self.money_lit(a)
+            w = rng.choice(NUMBERS)
+            op = rng.choice("*/")
+            fw = Fraction(repr(float(w)))
+            res = v1 * fw if op == "*" else (v1 / fw if fw != 0 else None)
+            return "%s %s %s" % (l1, op, fmt_dec(w)), self.expect("Money", a, res, scale=abs(v1))
+        if kind == "ratio":
+            l1, v1 = self.money_lit(a)
+            l2, v2 = self.money_lit(b, rng.choice([x for x in AMOUNTS if x != 0]), allow_sign=False)
+            d = self.conv(table, v2, b, a)
+            res = None if not d else v1 / d
+            return "%s / %s" % (l1, l2), self.expect("Number", None, res)
+        if kind == "variable":
+            l1, v1 = self.money_lit(a)
+            text = "price = %s\nprice %s %s" % (l1, rng.choice(self.words), self.name_after(b))
+            e = self.expect("Money", b, self.conv(table, v1, a, b), scale=abs(v1))
+            e["line"] = 1
+            return text, e
+        raise ValueError(kind)
+
+    @staticmethod
+    def expect(typ, cur, value, scale=None):
+        e = {"typ": typ, "cur": cur}
+        if value is not None:                         # None: the statement's formula is undefined (division by zero)
+            e["expect"] = [value.numerator, value.denominator]
+            sc = max(abs(value), scale or 0)
+            e["scale"] = [sc.numerator, sc.denominator]
+        return e
+
+    # ---- histories
+    def update_name(self, table):
+        rng = self.rng
+        k = rng.random()
+        if k < 0.45:
+            c = rng.choice(self.codes)
+            return rng.choice([c, c.lower(), mixed(rng, c)])
+        if k < 0.65:
+            a = rng.choice(sorted(self.alias))
+            return a if rng.random() < 0.7 else a.upper()
+        if k < 0.8:
+            c = rng.choice(self.all_codes)                     # possibly a currency that has no rate yet
+            return rng.choice([c, c.lower()])
+        return rng.choice(UNKNOWN)
+
+    def history(self, max_ops=10):
+        rng = self.rng
+        table = dict(self.rates)
+        ops, steps = [], []
+        n = rng.randint(2, max_ops)
+        for i in range(n):
+            if i < n - 1 and rng.random() < 0.55:
+                name = self.update_name(table)
+                rate = rng.choice(NEW_RATES) if rng.random() < 0.8 else round(rng.uniform(0.01, 500), rng.randint(0, 6))
+                code = resolve(name, self.cur, self.alias)
+                ops.append({"op": "update_currency", "cur": name, "rate": str(bits(rate))})
+                steps.append({"ret": code is not None})
+                if code is not None:
+                    table[code] = Fraction(repr(float(rate)))
+            else:
+                text, e = self.evaluation(table)
+                ops.append({"op": "exec", "lang": "en", "text": text})
+                steps.append(e)
+        return {"ops": ops, "meta": {"kind": "update-history", "steps": steps}}
+
+    def single(self, kind=None, text_e=None):
+        text, e = text_e or self.evaluation(self.rates, kind)
+        return {"ops": [{"op": "exec", "lang": "en", "text": text}], "meta": {"kind": kind or "eval", "steps": [e]}}
 
 
 def generate(rng, tier):
-    cur, rates, alias = load_tables()
-    codes = sorted(rates)
-    n = 400 if tier == "quick" else 6000
+    g = Gen(rng)
+    quick = tier == "quick"
+    n = 500 if quick else 7000
     cases = []
-    if tier != "quick":
-        for a in codes:
-            for b in codes:
-                cases.append(exec_case("100 %s to %s" % (a.lower(), b.lower()), "en", kind="pair",
-                                       typ="Money", cur=b, expect=frac(conv(rates, Fraction(100), a, b))))
+    # every conversion word x ordered pairs (all pairs in the thorough tier)
+    pairs = [(a, b) for a in g.codes for b in g.codes]
+    if quick:
+        pairs = rng.sample(pairs, 60)
+    for i, (a, b) in enumerate(pairs):
+        w = g.words[i % len(g.words)]
+        text = "100 %s %s %s" % (a.lower(), w, b.lower())
+        cases.append(g.single("pair", (text, g.expect("Money", b, g.conv(g.rates, Fraction(100), a, b), scale=Fraction(100)))))
+    # every currency code of the table x the spellings of a literal
+    forms = [("%s %s", 1), ("%s%s", 1), ("%sk %s", 1000), ("%sM  %s", 1000000), ("-%s %s", -1), ("%s  %s", 1)]
+    for i, code in enumerate(g.all_codes if not quick else rng.sample(g.all_codes, 40)):
+        for j, (form, mult) in enumerate(forms if not quick else [forms[i % len(forms)]]):
+            amt = AMOUNTS[(i + j) % len(AMOUNTS)]
+            name = [code.lower(), code.upper(), mixed(rng, code)][(i + j) % 3]
+            if resolve(name, g.cur, g.alias) != code:
+                continue
+            text = form % (fmt_dec(amt), name)
+            cases.append(g.single("spelling", (text, g.expect("Money", code, Fraction(repr(float(amt))) * mult))))
+    # aliases and symbols, all of them
+    for al, code in sorted(g.alias.items()):
+        if al.isascii() and al.isalpha() and len(al) >= 2:
+            for text, v in (("25 " + al, 25), ("25" + al.upper(), 25), ("3k " + al, 3000)):
+                cases.append(g.single("alias", (text, g.expect("Money", code, Fraction(v)))))
+        elif al in sum(g.symbols.values(), []):
+            for text, v in ((al + "25", 25), ("25" + al, 25), ("25 " + al, 25), (al + "3k", 3000), ("3M " + al, 3000000),
+                            (al + "1.250,5", Fraction(2501, 2))):
+                cases.append(g.single("symbol", (text, g.expect("Money", code, Fraction(v)))))
     while len(cases) < n:
-        r = rng.random()
-        a, b = rng.choice(codes), rng.choice(codes)
-        if rng.random() < 0.1:
-            b = a
-        amt = rng.choice(AMOUNTS) if rng.random() < 0.7 else round(rng.uniform(0, 100000), rng.randint(0, 2))
-        if r < 0.4:
-            lit, v = money_lit(rng, amt, a)
-            tgt = rng.choice(ALIASES_AFTER.get(b, [b.lower(), b.upper()]))
-            text = lit + " " + rng.choice(["to", "in", "as", "into"]) + " " + tgt
-            cases.append(exec_case(text, "en", kind="convert", typ="Money", cur=b, expect=frac(conv(rates, v, a, b))))
-        elif r < 0.5:
-            lit, v = money_lit(rng, amt, a)
-            neg = rng.random() < 0.3 and lit[0].isdigit()
-            cases.append(exec_case(("-" if neg else "") + lit, "en", kind="literal", typ="Money", cur=a,
-                                   expect=frac(-v if neg else v)))
-        elif r < 0.75:
-            l1, v1 = money_lit(rng, amt, a)
-            k = rng.random()
-            if k < 0.45:
-                amt2 = rng.choice(AMOUNTS)
-                l2, v2 = money_lit(rng, amt2, b)
-                op = rng.choice("+-")
-                res = v1 + conv(rates, v2, b, a) if op == "+" else v1 - conv(rates, v2, b, a)
-                cases.append(exec_case("%s %s %s" % (l1, op, l2), "en", kind="money" + op + "money", typ="Money", cur=a, expect=frac(res)))
-            elif k < 0.75:
-                w = rng.choice([0, 1, 2, 3, 4, 10, 0.5, 12.5])
-                op = rng.choice("*/")
-                res = v1 * Fraction(repr(float(w))) if op == "*" else (v1 / Fraction(repr(float(w))) if w != 0 else Fraction(0))
-                cases.append(exec_case("%s %s %s" % (l1, op, fmt_dec(w)), "en", kind="money" + op + "number", typ="Money", cur=a, expect=frac(res)))
-            else:
-                amt2 = rng.choice([x for x in AMOUNTS if x != 0])
-                l2, v2 = money_lit(rng, amt2, b)
-                d = conv(rates, v2, b, a)
-                res = v1 / d if d != 0 else Fraction(0)
-                cases.append(exec_case("%s / %s" % (l1, l2), "en", kind="money/money", typ="Number", cur=None, expect=frac(res)))
+        if rng.random() < 0.45:
+            cases.append(g.history())
         else:
-            # a history of rate updates, then conversions that must see exactly the current table
-            table = dict(rates)
-            ops, steps = [], []
-            for _ in range(rng.randint(1, 6)):
-                if rng.random() < 0.65:
-                    name = rng.choice([rng.choice(codes), rng.choice(codes).lower(), rng.choice(list(alias)), "xyz", "", "bitcoin"])
-                    rate = rng.choice([0.5, 1.0, 2.0, 7.25, 100.0, 0.001, 3.5])
-                    code = resolve(name, cur, alias)
-                    ops.append({"op": "update_currency", "cur": name, "rate": str(bits(rate))})
-                    steps.append({"ret": code is not None})
-                    if code is not None:
-                        table[code] = Fraction(repr(rate))
-                else:
-                    x, y = rng.choice(sorted(table)), rng.choice(sorted(table))
-                    if x not in rates or y not in rates:
-                        x, y = a, b
-                    ops.append({"op": "exec", "lang": "en", "text": "%s %s to %s" % (fmt_dec(amt), x.lower(), y.lower())})
-                    steps.append({"typ": "Money", "cur": y, "expect": frac(conv(table, Fraction(repr(float(amt))), x, y))})
-            x, y = rng.choice(sorted(table)), rng.choice(sorted(table))
-            ops.append({"op": "exec", "lang": "en", "text": "%s %s to %s" % (fmt_dec(amt), x.lower(), y.lower())})
-            steps.append({"typ": "Money", "cur": y, "expect": frac(conv(table, Fraction(repr(float(amt))), x, y))})
-            cases.append({"ops": ops, "meta": {"kind": "update-history", "steps": steps}})
+            cases.append(g.single())
     return cases
 
 
-def frac(f):
-    return [f.numerator, f.denominator]
-
-
-def close(got, exp):
+def close(got, exp, scale):
     if got != got or abs(got) == float("inf"):
         return False
     g = Fraction(repr(got))
-    if exp == 0:
+    if scale == 0:
         return abs(g) <= Fraction(1, 10 ** 12)
-    return abs(g - exp) <= abs(exp) * TOL
+    return abs(g - exp) <= abs(scale) * TOL
 
 
-def check_value(line, typ, cur, expect):
+def check_value(line, st):
+    if "expect" not in st:
+        return None
     if line is None:
         return "expected a result, got nothing"
     k, v = line_value(line)
-    if k != "item" or v["t"] != typ:
-        return "expected %s, got %s %r" % (typ, k, v)
-    if typ == "Money" and v["cur"] != cur:
-        return "expected currency %s, got %s" % (cur, v["cur"])
-    exp = Fraction(expect[0], expect[1])
+    if k != "item" or v["t"] != st["typ"]:
+        return "expected %s, got %s %r" % (st["typ"], k, v)
+    if st["typ"] == "Money" and v["cur"] != st["cur"]:
+        return "expected currency %s, got %s" % (st["cur"], v["cur"])
+    exp = Fraction(st["expect"][0], st["expect"][1])
     got = from_bits(v["v"])
-    if not close(got, exp):
+    if not close(got, exp, Fraction(st["scale"][0], st["scale"][1])):
         return "expected %.17g, got %.17g" % (float(exp), got)
     return None
 
 
 def nontrivial(c, rec):
     lines = last_lines(rec)
-    if not lines or lines[0] is None:
+    if not lines or lines[-1] is None:
         return False
-    k, v = line_value(lines[0])
-    return k == "item"
+    k, v = line_value(lines[-1])
+    return k == "item" and v["t"] in ("Money", "Number")
 
 
 def spec_check(c, rec, header):
     m = c["meta"]
     if rec is None or rec.get("hang") or rec.get("crash"):
         return "evaluation hung or crashed"
-    if m["kind"] == "update-history":
-        for i, (st, ob) in enumerate(zip(m["steps"], rec["obs"])):
-            if "panic" in ob:
-                return "operation %d panicked" % i
-            if "ret" in st:
-                if ob.get("ret") != st["ret"]:
-                    return "operation %d: update_currency returned %r, expected %r" % (i, ob.get("ret"), st["ret"])
-            else:
-                lines = ob.get("lines")
-                if not lines or len(lines) != 1:
-                    return "operation %d: expected one line" % i
-                v = check_value(lines[0], st["typ"], st["cur"], st["expect"])
-                if v:
-                    return "operation %d: %s" % (i, v)
-        return None
-    lines = last_lines(rec)
-    if lines is None:
-        return "evaluation panicked or hung"
-    if len(lines) != 1:
-        return "expected one result line"
-    return check_value(lines[0], m["typ"], m["cur"], m["expect"])
+    if len(rec["obs"]) != len(m["steps"]):
+        return "expected %d observations, got %d" % (len(m["steps"]), len(rec["obs"]))
+    for i, (st, ob) in enumerate(zip(m["steps"], rec["obs"])):
+        if "panic" in ob:
+            return "operation %d panicked" % i
+        if "ret" in st:
+            if ob.get("ret") != st["ret"]:
+                return "operation %d: update_currency returned %r, expected %r" % (i, ob.get("ret"), st["ret"])
+        else:
+            lines = ob.get("lines")
+            ln = st.get("line", 0)
+            if not lines or len(lines) != ln + 1:
+                return "operation %d: expected %d line(s), got %r" % (i, ln + 1, lines and len(lines))
+            v = check_value(lines[ln], st)
+            if v:
+                return "operation %d: %s" % (i, v)
+    return None
 
 
 def known_class(c, rec, verdict, known):
